@@ -136,6 +136,24 @@ theorem bphp_validation (p h : Int) :
     · have : ¬ (p < 1 ∨ h < 1) := by omega
       simp [h1, h2, this]
 
+/-- what the docstring promises: every non-negative pair of parameters yields a formula -/
+def BphpDocumentedDomain : Prop := ∀ p h : Int, 0 ≤ p → 0 ≤ h → ∃ F, bphp p h = .ok F
+
+/-- finding D37: the documented domain (`pigeons ≥ 0`, `holes ≥ 0`) is not the accepted one —
+zero pigeons (or holes) are rejected with `ValueError`; replayed on the real code by the corpus
+case `bphp 0 1` of the harness -/
+theorem bphp_zero_rejected : bphp 0 1 = .error .valueError ∧ ¬ BphpDocumentedDomain := by
+  refine ⟨rfl, fun h => ?_⟩
+  obtain ⟨F, hF⟩ := h 0 1 (by omega) (by omega)
+  cases hF
+
+/-- the accepted region, as an explicit hypothesis -/
+theorem bphp_domain_partial (p h : Int) (hp : 1 ≤ p) (hh : 1 ≤ h) :
+    bphp p h = .ok (bphpF p.toNat h.toNat) := by
+  rw [bphp_validation]
+  have : ¬ (p < 1 ∨ h < 1) := by omega
+  simp [this]
+
 theorem bphp_cnf_spec (m n : Nat) (α : Assign) :
     (bphpF m n).toCNF.holds α = true ↔ BPHPSpec m n (bphpVal α n) := by
   rw [Formula.toCNF_holds α _ (bphp_wf m n)]; exact bphp_spec m n α
